@@ -313,6 +313,9 @@ func (x *Exec) applyStub(kind string, fn *ssa.Function, args []Value) Value {
 		bound := x.ts.Bin(OMul, x.term(args[idx]), x.ts.BV(uint64(mul), 64))
 		x.addPath(x.ts.Cmp(OUlt, r, bound))
 		return r
+	case kind == "anybool":
+		// arbitrary boolean oracle (e.g. primality of a symbolic candidate)
+		return x.ts.Var("oracle_"+fn.Name(), SBool, 0)
 	case kind == "skip":
 		return x.zeroResults(fn)
 	case strings.HasPrefix(kind, "call:"):
